@@ -153,6 +153,7 @@ Set_pop(Bucket* self, PyObject* args)
         }
     }
 
+    Py_DECREF(key);
     return result;
 }
 
